@@ -220,7 +220,7 @@ def run(ctx):
             raise common.HarnessFault(f"cmake rejects base module {name}: {out}")
         if pipeline.document_text(text)["page"] is None:
             ctx.violation({"name": name, "kind": "none", "pos": 0, "text": text}, [f"error: valid base module {name} is rejected"])
-    results = ctx.sweep(judge_mutant, jobs, space="in-process mutants", selftest=5)
+    results = ctx.sweep(judge_mutant, jobs, space="in-process mutants", selftest=5, isolate=False)
     judged = [j for j, r in zip(jobs, results) if r["judged"]]
     ctx.cov["mutants_generated"] = len(jobs)
     ctx.cov["mutants_judged"] = len(judged)
@@ -239,7 +239,7 @@ def run(ctx):
     for k, lst in sorted(byk.items()):
         picks = {0, len(lst) // 2, len(lst) - 1} if quick else set(range(0, len(lst), max(1, len(lst) // 12)))
         cli += [lst[i] for i in sorted(picks)]
-    ctx.sweep(cli_case, cli, space="CLI subprocess (single file, directory, recursive directory)", selftest=0, chunk=1)
+    ctx.sweep(cli_case, cli, space="CLI subprocess (single file, directory, recursive directory)", selftest=0, chunk=1, isolate=False)
     # process histories: every ordered pair out of a spread of judged mutants (first, middle, last of each fault kind on
     # one base) documented in one process
     spread = []
@@ -247,7 +247,7 @@ def run(ctx):
         if k[0] == "flat_sets":
             spread += [lst[0], lst[len(lst) // 2], lst[-1]]
     pairs = [(a, b) for a in spread for b in spread] if not quick else [(a, b) for a in spread[::2] for b in spread[::2]]
-    ctx.sweep(judge_sequence, pairs, space="two faulty modules in one process", selftest=0)
+    ctx.sweep(judge_sequence, pairs, space="two faulty modules in one process", selftest=0, isolate=False)
     ctx.cov["bounds"] = {"bases": list(BASES), "fault_kinds": 10, "cli_confirmations": len(cli)}
     ctx.assumptions += ["a mutant that cmake accepts (legacy unquoted forms, faults that re-pair with later text) is not judged",
                         "bad escapes inside function bodies are judged by the manual's rule alone (CMake checks them at execution)"]
